@@ -96,6 +96,11 @@ def program(rng, sigs=None):
         hdr['D'] = rng.choice([':1.5', 'com.example.Dest'])
     if rng.random() < 0.4:
         hdr['S'] = rng.choice([':1.2', 'org.freedesktop.DBus'])
+    if sigs is None and rng.random() < 0.04:
+        # very many arguments: the body signature passes 127 / 128 / 255 bytes while values are still being appended
+        n = rng.choice([126, 127, 128, 129, 130, 200, 254, 255])
+        sigs = [rng.choice(['y', 'y', 'b', 'i', 'q', 'n']) for _ in range(n)] if rng.random() < 0.7 else \
+               ['a{sv}'] * (n // 5) + ['y'] * (n % 5)
     if sigs is None:
         sigs = [gen_wire.rand_sig(rng) for _ in range(rng.choice([0, 1, 1, 2, 3]))]
         while 'h' in ''.join(sigs):
